@@ -812,9 +812,9 @@ HARNESSES = {
     "legacy_images": dict(run=_run_legacy_images, replay=_replay_legacy_images, patch=_P),
     "enum": dict(run=_run_enum, replay=_replay_enum, patch=_P),
     "enum_meta": dict(run=_run_enum_meta, replay=_replay_enum_meta, patch=_P),
-    "enum_top": dict(run=_run_enum_top, replay=_replay_enum_top, patch=_P),
-    "names": dict(run=_run_names, replay=_replay_names, patch=_P),
-    "xproc": dict(run=_run_xproc, replay=_replay_xproc, patch=_P),
+    "enum_top": dict(run=_run_enum_top, replay=_replay_enum_top, patch=_P, validate_every=0),
+    "names": dict(run=_run_names, replay=_replay_names, patch=_P, validate_every=0),
+    "xproc": dict(run=_run_xproc, replay=_replay_xproc, patch=_P, validate_every=0),
     "identity": dict(run=_run_identity, replay=_replay_identity, patch=_P),
 }
 
